@@ -87,9 +87,9 @@ class Loaded:
 
 def clause_key(oid):
     """Ledger granularity: explicit clauses by tag; implicit exception-freedom per function and kind."""
-    m = re.match(r'^(.*?):noexc:([a-z.\-]+)@', oid)
+    m = re.match(r'^(.*?):(noexc:[a-z.\-]+@|raises:)', oid)
     if m:
-        return '%s:noexc:%s' % (m.group(1), m.group(2))
+        return '%s:raises-only-declared' % m.group(1)
     m = re.match(r'^(.*?):(frame|heap-type)[@:]', oid)
     if m:
         return '%s:%s' % (m.group(1), m.group(2))
@@ -148,7 +148,18 @@ def load_known():
 OUT = os.environ.get('VERIF_OUT', VERIF)
 
 
+def _jsonable(x):
+    if isinstance(x, dict):
+        return {str(k): _jsonable(v) for k, v in x.items()}
+    if isinstance(x, (list, tuple, set, frozenset)):
+        return [_jsonable(v) for v in x]
+    if isinstance(x, (str, int, float, bool)) or x is None:
+        return x
+    return repr(x)
+
+
 def write_replay(pid, name, payload):
+    payload = _jsonable(payload)
     d = os.path.join(OUT, 'replays')
     os.makedirs(d, exist_ok=True)
     h = hashlib.md5(json.dumps(payload, sort_keys=True, default=str).encode()).hexdigest()[:10]
@@ -159,6 +170,7 @@ def write_replay(pid, name, payload):
 
 
 def write_evidence(pid, ev):
+    ev = _jsonable(ev)
     d = os.path.join(OUT, 'evidence')
     os.makedirs(d, exist_ok=True)
     json.dump(ev, open(os.path.join(d, pid + '.json'), 'w'), indent=1, default=str)
